@@ -225,7 +225,7 @@ def gen_accuracy_inputs(rng, thorough: bool):
     # float64 reference for float32 runs up to n = 128
     for n in ([24, 48, 96, 128] if not thorough else [20, 24, 32, 48, 64, 96, 128]):
         plan.append(("float32", n, False))
-    reps = 6 if thorough else 2
+    reps = 6 if thorough else 3
     k = 0
     for dtype, n, use_mp in plan:
         u = U[dtype]
@@ -234,11 +234,11 @@ def gen_accuracy_inputs(rng, thorough: bool):
                 kind = ["psd", "rankdef", "psd", "repeated"][k % 4]
                 scale = 10 ** rng.uniform(-6, 6)
                 maxc = math.log10(0.1 / u)
-                cond = 10 ** rng.uniform(0, maxc if cfg[0] == "eigen" else min(maxc, 6))
+                cond = 10 ** rng.uniform(0, maxc if cfg[0] == "eigen" else min(maxc, 9))
                 lam = mfh.spectrum(rng, n, kind, scale, cond)
                 A = mfh.make_sym(lam, rng.randrange(1 << 40))
                 if kind == "rankdef" or cfg[0] != "eigen":
-                    eps = scale * 10 ** rng.uniform(-min(maxc, 6 if cfg[0] != "eigen" else 99), -1)
+                    eps = scale * 10 ** rng.uniform(-min(maxc, 9 if cfg[0] != "eigen" else 99), -1)
                 else:
                     eps = scale / cond * 10 ** rng.uniform(-2, 0)
                 if cfg[0] == "newton":
@@ -270,7 +270,7 @@ def run(ck: Check) -> None:
     thorough = ck.tier == "thorough"
 
     # ---- 1. the tie ------------------------------------------------------------------------------
-    cases = gen_tie_cases(ck.rng, 3000 if thorough else 240)
+    cases = gen_tie_cases(ck.rng, 3000 if thorough else 400)
     observations = [mfh.observe(c) for c in cases]
     agree_col = [mfh.agree_term(c, o) for c, o in zip(cases, observations)]
     query_col = [mfh.query_term(c, o) for c, o in zip(cases, observations)]
